@@ -5,7 +5,7 @@ var three = []string{"avx2", "purego", "u32"}
 
 // five = the four configurations of the property texts + a real 32-bit target (GOARCH=386: 32-bit limb backends
 // selected by architecture and a 32-bit native int), which runs natively on this host
-var five = []string{"avx2", "asm", "purego", "u32", "i386"}
+var five = []string{"avx2", "asm", "purego", "u32", "i386", "i386f64"}
 
 // wide = five + the configuration dimensions that are not backends in the sense of the property texts but that real
 // builds and hosts differ in: GOAMD64 level, CPU feature bits other than AVX2, number of Ps
@@ -13,7 +13,7 @@ var wide = []string{"avx2", "asm", "purego", "u32", "i386", "i386f64", "v3", "no
 var seven = []string{"avx2", "asm", "purego", "u32", "i386", "i386f64", "v3", "nocpu"}
 
 // fivePlusP / sevenPlusP add two runs of non-vector backends under numbers of Ps that divide no power of two
-var fivePlusP = []string{"avx2", "asm", "purego", "u32", "i386", "purego-p6", "asm-p3"}
+var fivePlusP = []string{"avx2", "asm", "purego", "u32", "i386", "i386f64", "purego-p6", "asm-p3"}
 var sevenPlusP = []string{"avx2", "asm", "purego", "u32", "i386", "i386f64", "v3", "nocpu", "purego-p6", "asm-p3"}
 
 var specs = map[string]propSpec{
